@@ -185,3 +185,35 @@ UNITS["codec"] = {
     ],
     "safety": {"*": ["C16", "C15"]},
 }
+
+# ---------------------------------------------------------------- U15-U16: prover
+PC_COMMIT = fns("src/generators/pedersen_gens.rs", "impl PedersenGens<P> {", "PedersenGens", impl_filter="impl PedersenGens<P>", fn_mono=["commit:T=Scalar"])
+
+
+def prover_pieces():
+    return types() + RPT_ITEMS + [
+        text("spec/tproto_trait.rs"), text("spec/sproto_trait.rs"), text("spec/spec_transcript.rs"), text("spec/spec_mask.rs"), text("spec/spec_wf.rs"),
+        text("spec/spec_verify.rs"), text("spec/spec_prove.rs"),
+        fns("src/protocols/scalar_protocol.rs", SPROTO_HEADER, "ScalarProtocol", stubs=["random_not_zero", "from_hasher_blake2b"],
+            impl_filter="impl ScalarProtocol for Scalar"),
+        fns("src/transcripts.rs", RPT_HEADER, "RangeProofTranscript", stubs=["new", "challenges_y_z", "challenge_round_e", "challenge_final_e", "as_mut_rng"]),
+        fns("src/utils/generic.rs", None, None, stubs=["nonce", "compute_generator_padding"]),
+        fns("src/range_parameters.rs", "impl RangeParameters<P> {", "RangeParameters", stubs=RP_GETTER_STUBS, subst=IMPL_ITER_SUBST),
+        with_fns(PC_COMMIT, stubs=["commit"]),
+        fns("src/range_proof.rs", RP_HEADER, "RangeProof", fns=["prove_with_rng"], mapcollect=True),
+    ]
+
+
+UNITS["prove"] = {
+    "prelude": PRELUDE_ALL,
+    "contracts": ["ctors.vc", "gens.vc", "transcripts.vc", "nonce.vc", "commit.vc", "prove_safety.vc", "prove_structure.vc"],
+    "pieces": prover_pieces(),
+    "safety": {"*": ["C01", "C06"]},
+    "rlimit": 150,
+}
+UNITS["commit"] = {
+    "prelude": PRELUDE_ALL,
+    "contracts": ["ctors.vc", "gens.vc", "commit.vc"],
+    "pieces": types() + [text("spec/spec_wf.rs"), text("spec/spec_prove.rs"), with_fns(PC_COMMIT, fns=["commit"])],
+    "safety": {"*": ["C17", "C06"]},
+}
